@@ -642,3 +642,69 @@ func (c *Ctx) subCtx(pkgs []*packages.Package) *Ctx {
 	}
 	return s
 }
+
+// PkgLevelClosures lists the function literals that sit in package-level variable initialisers
+// (the Run/RunE/PersistentPreRun closures of the cobra commands) as pseudo declarations named
+// "<variable>#<field>", so that rules written over FuncInfo see the code of the commands too.
+func (c *Ctx) PkgLevelClosures(pkgRels ...string) []*FuncInfo {
+	var out []*FuncInfo
+	for _, p := range c.All {
+		if len(pkgRels) > 0 {
+			ok := false
+			for _, r := range pkgRels {
+				if c.Pkg(r) == p {
+					ok = true
+				}
+			}
+			if !ok {
+				continue
+			}
+		}
+		info := p.TypesInfo
+		for _, f := range p.Syntax {
+			for _, d := range f.Decls {
+				gd, ok := d.(*ast.GenDecl)
+				if !ok || gd.Tok != token.VAR {
+					continue
+				}
+				for _, sp := range gd.Specs {
+					vs, ok := sp.(*ast.ValueSpec)
+					if !ok {
+						continue
+					}
+					for i, val := range vs.Values {
+						owner := "_"
+						if i < len(vs.Names) {
+							owner = vs.Names[i].Name
+						}
+						var visit func(n ast.Node, field string)
+						visit = func(n ast.Node, field string) {
+							ast.Inspect(n, func(m ast.Node) bool {
+								switch x := m.(type) {
+								case *ast.KeyValueExpr:
+									if k, ok := x.Key.(*ast.Ident); ok {
+										visit(x.Value, k.Name)
+										return false
+									}
+								case *ast.FuncLit:
+									sig, _ := info.TypeOf(x).(*types.Signature)
+									if sig == nil {
+										return false
+									}
+									name := owner + "#" + field
+									obj := types.NewFunc(x.Pos(), p.Types, name, sig)
+									out = append(out, &FuncInfo{Pkg: p, Decl: &ast.FuncDecl{Name: &ast.Ident{Name: name, NamePos: x.Pos()}, Type: x.Type, Body: x.Body}, Obj: obj})
+									return false
+								}
+								return true
+							})
+						}
+						visit(val, "init")
+					}
+				}
+			}
+		}
+	}
+	sort.Slice(out, func(i, j int) bool { return out[i].Decl.Pos() < out[j].Decl.Pos() })
+	return out
+}
